@@ -1,5 +1,3 @@
-//go:build verif_netmap
-
 package harness
 
 import (
@@ -40,12 +38,12 @@ type gv struct {
 	l []gv
 }
 
-func gInt(i int64) gv        { return gv{k: 'i', i: big.NewInt(i)} }
-func gBig(i *big.Int) gv     { return gv{k: 'i', i: i} }
-func gBytes(b []byte) gv     { return gv{k: 'b', b: b} }
-func gBool(b bool) gv        { return gv{k: 'o', o: b} }
-func gList(l ...gv) gv       { return gv{k: 'l', l: l} }
-func gListOf(l []gv) gv      { return gv{k: 'l', l: l} }
+func gInt(i int64) gv    { return gv{k: 'i', i: big.NewInt(i)} }
+func gBig(i *big.Int) gv { return gv{k: 'i', i: i} }
+func gBytes(b []byte) gv { return gv{k: 'b', b: b} }
+func gBool(b bool) gv    { return gv{k: 'o', o: b} }
+func gList(l ...gv) gv   { return gv{k: 'l', l: l} }
+func gListOf(l []gv) gv  { return gv{k: 'l', l: l} }
 func gStrs(ss []string) gv {
 	var l []gv
 	for _, s := range ss {
@@ -251,8 +249,8 @@ type nmOp struct {
 	Probe   int         `json:"probe,omitempty"`
 	CfgKey  []byte      `json:"cfgkey,omitempty"`
 	CfgVal  []byte      `json:"cfgval,omitempty"`
-	Signers []int       `json:"signers"` // -1 = committee (Alphabet), i = node i
-	Join    bool        `json:"join,omitempty"` // same block as the next operation
+	Signers []int       `json:"signers"`         // -1 = committee (Alphabet), i = node i
+	Join    bool        `json:"join,omitempty"`  // same block as the next operation
 	Light   bool        `json:"light,omitempty"` // C08 warm-up tick: only the short projection is read
 }
 
@@ -915,22 +913,22 @@ type nmMon struct {
 	n    *nmEnv
 	rc   refCands
 	// C06
-	subs      []int // probe indices in subscription order (-1 = balance)
-	epoch     int64
-	block     int64
-	lastNet   gv
-	probeTot  []int64
+	subs     []int // probe indices in subscription order (-1 = balance)
+	epoch    int64
+	block    int64
+	lastNet  gv
+	probeTot []int64
 	// C08 reference history
-	pubL  map[int64]gv
-	pub2  map[int64]gv
-	count int64
-	w     int64 // ghost window of the ring
-	w2    int64 // ghost window of the per-epoch lists
-	cur   int64 // ring index, from the raw storage read of the previous step
+	pubL       map[int64]gv
+	pub2       map[int64]gv
+	count      int64
+	w          int64 // ghost window of the ring
+	w2         int64 // ghost window of the per-epoch lists
+	cur        int64 // ring index, from the raw storage read of the previous step
 	lastResize int
-	putNil  int
-	sig     strings.Builder
-	flags   map[string]bool
+	putNil     int
+	sig        strings.Builder
+	flags      map[string]bool
 	resizeKeys map[string]bool
 }
 
@@ -1592,8 +1590,8 @@ func nmCorpus(prop string, n *nmEnv) [][]nmOp {
 				{Kind: "addNode", Addrs: []string{"x"}, Key: k0, State: 3, Signers: []int{-1, 0}},
 				{Kind: "addNode", Addrs: []string{"x"}, Key: k0[:32], State: 1, Signers: []int{-1, 0}},
 				{Kind: "addNode", Addrs: []string{"x"}, Key: k0, State: 1, Signers: []int{-1}},
-				{Kind: "updateState", State: 3, Key: k0, Signers: []int{-1, 0}}, // legacy only
-				{Kind: "updateState", State: 3, Key: k1, Signers: []int{-1, 1}}, // both
+				{Kind: "updateState", State: 3, Key: k0, Signers: []int{-1, 0}},             // legacy only
+				{Kind: "updateState", State: 3, Key: k1, Signers: []int{-1, 1}},             // both
 				{Kind: "updateState", State: 3, Key: n.nodes[2].pub, Signers: []int{-1, 2}}, // structured only
 				{Kind: "updateState", State: 1, Key: n.nodes[3].pub, Signers: []int{-1, 3}}, // neither
 				{Kind: "updateState", State: 0, Key: k0, Signers: []int{-1, 0}},
@@ -1647,6 +1645,8 @@ func runNetmapFamily(t *testing.T, prop string) {
 		if prop == "C08" {
 			fs.perFile = 90
 		}
+	} else if prop == "C08" {
+		fs.perFile = 19 // two files, evaluated in parallel by the driver
 	}
 	old, _ := filepath.Glob(filepath.Join(OutDir(), "cases_"+prop+"*.v"))
 	for _, o := range old {
